@@ -123,15 +123,39 @@ func VH_C17_Create() {
 		OnAutoGameOpenEnd:         func(c, t string) { rec.autoOpenEnd++ },
 		OnReadyOpenFirstTableGame: func(c, t string, gc int, ps []*TablePlayerState) { rec.readyFirst++ },
 	}
-	t, err := m.CreateTable(nil, cb, TableSetting{TableID: "tnew", Meta: TableMeta{TableMaxSeatCount: 4, TableMinPlayerCount: 2, Rule: CompetitionRule_Default, Mode: CompetitionMode_CT},
-		Blind: TableBlindState{Level: 1, SB: 10, BB: 20}})
+	// symbolic creation request: fresh id or the id of a live table, 0..3 auto-join players
+	// (ids and seats symbolic: duplicates, seat collisions, more players than seats) — the
+	// engine refuses some of these
+	tid := "tnew"
+	if verifrt.Bool("create.sameid") {
+		tid = "t0"
+	}
+	jn := verifrt.IntRange("create.jn", 0, 3)
+	jps := []JoinPlayer{}
+	for i := 0; i < jn; i++ {
+		jps = append(jps, JoinPlayer{PlayerID: vhNewIDs[verifrt.IntRangeI("create.pid", i, 0, 2)], RedeemChips: 100, Seat: verifrt.IntRangeI("create.seat", i, -1, 1)})
+	}
+	t, err := m.CreateTable(nil, cb, TableSetting{TableID: tid, Meta: TableMeta{TableMaxSeatCount: 2, TableMinPlayerCount: 2, Rule: CompetitionRule_Default, Mode: CompetitionMode_CT},
+		Blind: TableBlindState{Level: 1, SB: 10, BB: 20}, JoinPlayers: jps})
+	if err != nil {
+		verifrt.Reach("create refused")
+		verifrt.Assert(t == nil, "refused creation returns no table")
+		_, e1 := m.GetTableEngine("tnew")
+		verifrt.Assert(e1 == ErrManagerTableNotFound, "a refused creation registers nothing: the id stays not-found")
+		o, e2 := m.GetTableEngine("t0")
+		verifrt.Assert(e2 == nil && o == TableEngine(other) && len(other.calls) == 0, "a refused creation leaves the live table of that id (and every other) in place")
+		verifrt.Reach("end")
+		return
+	}
+	verifrt.Assume(tid == "tnew") // creating over a live id is a caller error; nothing is claimed about it
 	verifrt.Assert(err == nil && t != nil && t.ID == "tnew", "create succeeds")
 	got, err2 := m.GetTableEngine("tnew")
 	verifrt.Assert(err2 == nil && got != nil && got.GetTable() == t, "new engine registered under the table id")
 	o, err3 := m.GetTableEngine("t0")
 	verifrt.Assert(err3 == nil && o == TableEngine(other) && len(other.calls) == 0, "bystander table untouched")
 	te := got.(*tableEngine)
-	u0, s0 := rec.updated, rec.stateEvents
+	verifrt.DropPending() // events emitted from goroutines during creation are not the subject
+	r0 := *rec
 	te.onTableUpdated(t)
 	te.onTableErrorUpdated(t, nil)
 	te.onTableStateUpdated("x", t)
@@ -140,6 +164,6 @@ func VH_C17_Create() {
 	te.onGamePlayerActionUpdated(TablePlayerGameAction{})
 	te.onAutoGameOpenEnd("", "")
 	te.onReadyOpenFirstTableGame("", "", 0, nil)
-	verifrt.Assert(rec.updated == u0+1 && rec.errors == 1 && rec.stateEvents == s0+1 && rec.playerStates == 1 && rec.reserved == 1 && rec.actions == 1 && rec.autoOpenEnd == 1 && rec.readyFirst == 1, "all eight callbacks wired to the new engine")
+	verifrt.Assert(rec.updated == r0.updated+1 && rec.errors == r0.errors+1 && rec.stateEvents == r0.stateEvents+1 && rec.playerStates == r0.playerStates+1 && rec.reserved == r0.reserved+1 && rec.actions == r0.actions+1 && rec.autoOpenEnd == r0.autoOpenEnd+1 && rec.readyFirst == r0.readyFirst+1, "all eight callbacks wired to the new engine")
 	verifrt.Reach("end")
 }
